@@ -23,6 +23,7 @@ import (
 	"log"
 	"path"
 	"path/filepath"
+	"regexp"
 	"sort"
 
 	"github.com/go-openapi/analysis"
@@ -408,17 +409,17 @@ func (a *appGenerator) makeCodegenApp() (GenApp, error) {
 	}
 	sort.Sort(genOps)
 
-	// the runtime router cleans route patterns (a trailing slash is dropped): two operations that
-	// end up with the same method and cleaned path would share one handler slot, the last one
-	// registered serving both
+	// the runtime router cleans route patterns (a trailing slash is dropped) and matches path
+	// parameters by position, whatever their names: two operations that end up with the same
+	// method and pattern would share one handler slot, the last one registered serving both
 	routes := make(map[string]string, len(genOps))
 	for _, op := range genOps {
 		if a.GenOpts.IsClient {
 			break // a client can address both; only the generated server merges them
 		}
-		route := op.Method + " " + path.Clean(op.Path)
+		route := op.Method + " " + pathParamRex.ReplaceAllString(path.Clean(op.Path), "{}")
 		if other, ok := routes[route]; ok {
-			return GenApp{}, fmt.Errorf("operations %q and %q are both routed as %s: paths that only differ by a trailing slash cannot be told apart by the router", other, op.Name, route)
+			return GenApp{}, fmt.Errorf("operations %q and %q are both routed as %s: paths that only differ by a trailing slash or by the names of their parameters cannot be told apart by the router", other, op.Name, route)
 		}
 		routes[route] = op.Name
 	}
@@ -550,6 +551,9 @@ func (a *appGenerator) makeCodegenApp() (GenApp, error) {
 		PrincipalIsNullable: a.GenOpts.PrincipalIsNullable(),
 	}, nil
 }
+
+// pathParamRex matches a parameter in a path template
+var pathParamRex = regexp.MustCompile(`\{[^/}]+\}`)
 
 // generateReadableSpec makes swagger json spec as a string instead of bytes
 // the only character that needs to be escaped is '`' symbol, since it cannot be escaped in the GO string
